@@ -101,6 +101,7 @@ def simplify(case):
 def run_case(case, exec_seed=None, exec_tape=None):
     w, cfg = case["workload"], case["config"]
     out = {"violations": [], "probes": {}, "nontrivial": [], "evaluations": 1}
+    C.begin_case()
     ref = C.reference_run(w)
     if ref.error is not None:
         out["discarded"] = True
